@@ -243,6 +243,7 @@ def raise_timeout_error(msg):
   raise TimeoutError(msg)
 
 
+_LOCK_ONCE = threading.Lock()
 GATES = {}      # gate id -> (started: threading.Event, release: threading.Event)
 
 
